@@ -847,6 +847,13 @@ class DistributedShampoo(torch.optim.Optimizer):
                     masked_filtered_grad_list,
                     bias_correction1,
                 )
+            elif beta3 == beta1:
+                # The search direction is modified in-place downstream (weight decay, momentum, learning rate),
+                # so it must never alias the filtered gradient state.
+                masked_filtered_grad_list = tuple(
+                    filtered_grad.clone()
+                    for filtered_grad in masked_filtered_grad_list
+                )
         else:
             masked_filtered_grad_list = state_lists[MASKED_BLOCKED_GRADS]
 
